@@ -116,6 +116,8 @@ def entries_for(rng, f, n, explicit=4):
         if n - k > 0:
             segs.append(['bulk', rng.choice([bk, bk_big]), n - k, rng.randint(0, 50000)])
         return segs
+    if f in STRUCT_FAMILIES:
+        return struct_entries(rng, f, n)
     if f in W.RAW_FAMILIES:
         if not n:
             return []
@@ -337,6 +339,7 @@ def gen_cases(rng, tier):
                         cases.append(mk(l, r, ['unreach', f, es], ['unreach', 'sweep']))
     two_l, two_r = caps_pair([W.IPV4, W.IPV6, W.IPV6_VPN, W.IPV6_MPLS, W.IPV4_MPLS, W.IPV4_VPN], as4=(False, True))
     cases += audit_cases(rng)
+    cases += struct_audit_cases(rng)
     for m in bad:
         cases.append(mk(two_l, two_r, m, ['malformed']))
         cases.append(mk(*caps_pair([W.IPV4, W.IPV6, W.IPV6_VPN, W.IPV6_MPLS, W.IPV4_MPLS, W.IPV4_VPN]), m, ['malformed']))
@@ -557,3 +560,136 @@ def audit_cases(rng):
 
 def std_caps():
     return caps_pair([W.IPV4, W.IPV6])
+
+
+# ---- structured NLRI of the families whose encoders the model covers (Flowspec x4, RTC, EVPN, SR Policy x2)
+STRUCT_FAMILIES = (W.IPV4_FS, W.IPV6_FS, W.IPV4_FSVPN, W.IPV6_FSVPN, W.RTC, W.EVPN, W.IPV4_SRP, W.IPV6_SRP)
+RDS = [[0, 0, 253, 232, 0, 0, 0, 100], [0, 1, 192, 0, 2, 1, 0, 7], [0, 2, 0, 1, 0, 0, 0, 9]]
+V6A = [32, 1, 13, 184, 0, 1, 0, 2, 0, 3, 0, 4, 0, 5, 0, 6]
+OPVALS = [0, 1, 255, 256, 65535, 65536, 4294967295, 4294967296, 2 ** 64 - 1]
+
+def ops_list(vals, bits=(0x01, 0x03, 0x45, 0x06)):
+    return [[(bits[k % len(bits)] & 0x4f) | (0x80 if k == len(vals) - 1 else 0), v] for k, v in enumerate(vals)]
+
+def fs_rule(rng, f, i, ncomp=None):
+    v6 = 1 if f in (W.IPV6_FS, W.IPV6_FSVPN) else 0
+    rd = RDS[i % 3] if f in (W.IPV4_FSVPN, W.IPV6_FSVPN) else None
+    comps = []
+    if i % 2 == 0:
+        comps.append(['p', 1, [0, 8, 24, 32][i % 4] if not v6 else [0, 48, 64, 128][i % 4], 0, ([10] + W.be32(i)[1:]) if not v6 else V6A[:13] + W.be32(i)[1:]])
+    types = list(range(3, 14 if v6 else 13))
+    for k in range(ncomp if ncomp is not None else 1 + i % 3):
+        ty = types[(i + 5 * k) % len(types)]
+        comps.append(['o', ty, ops_list([OPVALS[(i + k + j) % len(OPVALS)] for j in range(1 + (i + k) % 3)])])
+    return ['fs', v6, rd, comps]
+
+def fs_sized(f, i, target):
+    """a rule whose body (RD + components) is exactly [target] octets: one port component of 2-octet operators"""
+    v6 = 1 if f in (W.IPV6_FS, W.IPV6_FSVPN) else 0
+    rd = RDS[i % 3] if f in (W.IPV4_FSVPN, W.IPV6_FSVPN) else None
+    rest = target - (8 if rd else 0)
+    comps = []
+    if rest % 2 == 0:       # 1 + 2k is odd: an extra 3-octet operator makes the sum even
+        nops = (rest - 1 - 3) // 2
+        comps.append(['o', 4, ops_list([7] * nops + [300])])
+    else:
+        comps.append(['o', 4, ops_list([(i + k) % 256 for k in range((rest - 1) // 2)])])
+    return ['fs', v6, rd, comps]
+
+def evpn_route(i, k):
+    rd, esi = RDS[i % 3], [(i + j) % 256 for j in range(10)]
+    ip = [[], [10] + W.be32(i)[1:], V6A[:12] + W.be32(i)][i % 3]
+    if k == 1: return ['evpn', 1, rd, esi, [0, i, 4294967295][i % 3], [0, 100 + i, 16777215][i % 3]]
+    if k == 2: return ['evpn', 2, rd, esi, i, [2, 0, 0] + W.be32(i)[1:], ip, (100 + i) % 16777216, None if i % 2 else [0, 16777215, 200][i % 3]]
+    if k == 3: return ['evpn', 3, rd, i, ip or [192, 0, 2, 1]]
+    if k == 4: return ['evpn', 4, rd, esi, ip or V6A]
+    ipp = ip or [10, 1, 0, 0]
+    return ['evpn', 5, rd, esi, i, [0, 8 * len(ipp), 24][i % 3], ipp, [0] * len(ipp) if i % 2 else (ipp[:-1] + [1]), [0, 16777215, 5000][i % 3]]
+
+def struct_entry(rng, f, i):
+    if f in (W.IPV4_FS, W.IPV6_FS, W.IPV4_FSVPN, W.IPV6_FSVPN): return fs_rule(rng, f, i)
+    if f == W.RTC: return ['rtc', i % 3, [0, 65000 + i, 4294967295][i % 3] if i % 3 else 0, (RDS[i % 3][:2] + W.be16(65000) + W.be32(i)) if i % 3 == 2 else []]
+    if f == W.EVPN: return evpn_route(i, 1 + i % 5)
+    if f == W.IPV4_SRP: return ['srp', i, 100 + i % 3, [10] + W.be32(i)[1:]]
+    return ['srp', i, [0, 4294967295][i % 2], V6A[:12] + W.be32(i)]
+
+STRUCT_BULK = {W.EVPN: (9, 13), W.IPV4_FS: (10,), W.IPV6_FSVPN: (14,), W.RTC: (11,), W.IPV4_SRP: (12,)}
+
+def struct_entries(rng, f, n):
+    if not n:
+        return []
+    k = min(n, rng.randint(1, 6) if f in STRUCT_BULK else min(n, 120))
+    start = rng.randint(0, 50000)
+    segs = [['x', [[(start + j) % 7, struct_entry(rng, f, start + j)] for j in range(k)]]]
+    if n - k > 0 and f in STRUCT_BULK:
+        segs.append(['bulk', rng.choice(STRUCT_BULK[f]), n - k, start])
+    return segs
+
+def struct_audit_cases(rng):
+    cs = []
+    def add(l, r, m, *tags):
+        cs.append(mk(l, r, m, ['audit'] + list(tags)))
+    def both(f, entries, *tags, ext=(True, True), ap=0):
+        l, r = caps_pair([f, W.IPV4], lmode=ap, rmode=ap, ext=ext)
+        nh = None if f in (W.IPV4_FS, W.IPV6_FS, W.IPV4_FSVPN, W.IPV6_FSVPN) else (NH4 if (f >> 16) == 1 else NH6)
+        if f == W.EVPN: nh = NH4
+        add(l, r, ['reach', f, nh, A0, [['x', entries]]], *tags)
+        add(l, r, ['unreach', f, [['x', entries]]], *tags)
+    FS = (W.IPV4_FS, W.IPV6_FS, W.IPV4_FSVPN, W.IPV6_FSVPN)
+    for f in FS:
+        v6 = 1 if f in (W.IPV6_FS, W.IPV6_FSVPN) else 0
+        rd = RDS[1] if f in (W.IPV4_FSVPN, W.IPV6_FSVPN) else None
+        # every component type, alone; every operator value width on both sides of its switch; flag bits
+        for ty in range(3, 14 if v6 else 13):
+            both(f, [[0, ['fs', v6, rd, [['o', ty, ops_list(OPVALS)]]]]], 'fs_every_component')
+        for v in OPVALS:
+            both(f, [[0, ['fs', v6, rd, [['o', 5, ops_list([v])]]]]], 'fs_op_value_width')
+        for b in (0x00, 0x01, 0x02, 0x04, 0x07, 0x40, 0x47, 0x0f):
+            both(f, [[0, ['fs', v6, rd, [['o', 9, [[b, 1], [b | 0x80, 2]]]]]]], 'fs_op_bits')
+        # prefix components: both types, every octet boundary of the length
+        for ty in (1, 2):
+            for m in ((0, 1, 7, 8, 9, 16, 24, 25, 31, 32) if not v6 else (0, 1, 8, 63, 64, 65, 120, 121, 127, 128)):
+                a = ([203, 0, 113, 255] if not v6 else [32, 1, 13, 184] + [255] * 12)
+                nb = (m + 7) // 8
+                a = a[:nb] + [0] * (len(a) - nb)
+                both(f, [[0, ['fs', v6, rd, [['p', ty, m, 0, a], ['o', 3, ops_list([6])]]]]], 'fs_prefix_lengths')
+        both(f, [[0, ['fs', v6, rd, []]]], 'fs_empty_rule')
+        both(f, [[0, ['fs', v6, rd, [['p', 1, 0, 0, [0] * (16 if v6 else 4)], ['p', 2, 8, 0, [10] + [0] * (15 if v6 else 3)]] +
+                              [['o', ty, ops_list([ty])] for ty in range(3, 14 if v6 else 13)]]]], 'fs_all_components')
+        # rule body sizes on both sides of the one/two octet length prefix and of its 12-bit limit
+        for target in (237, 238, 239, 240, 241, 242, 243, 255, 256, 257, 4094, 4095):
+            both(f, [[0, fs_sized(f, target, target)], [0, fs_sized(f, target + 1, 12)]], 'fs_len_switch_struct')
+        for ap in (0, 3):
+            both(f, [[j + 1, fs_rule(rng, f, j)] for j in range(12)], 'fs_mixed', ap=ap, ext=(False, False))
+    if True:
+        v6rule = lambda off: ['fs', 1, None, [['p', 1, 64, off, V6A[:8] + [0] * 8]]]
+        for off in (1, 8, 63):
+            both(W.IPV6_FS, [[0, v6rule(off)]], 'fs_v6_offset')
+    # RTC: the three forms, AS numbers at the edges
+    for kind in (0, 1, 2):
+        for asn in (0, 65535, 65536, 4294967295):
+            both(W.RTC, [[0, ['rtc', kind, asn if kind else 0, [0, 2, 253, 232, 0, 0, 0, 1] if kind == 2 else []]]], 'rtc_forms')
+    both(W.RTC, [[j, struct_entry(rng, W.RTC, j)] for j in range(9)], 'rtc_forms', ap=3)
+    # EVPN: every route type x address form x optional label, field edges
+    for k in range(1, 6):
+        for i in range(6):
+            both(W.EVPN, [[0, evpn_route(i, k)]], 'evpn_every_type')
+        both(W.EVPN, [[j + 1, evpn_route(j, k)] for j in range(6)], 'evpn_every_type', ap=3, ext=(False, False))
+    for rd in RDS:
+        both(W.EVPN, [[0, ['evpn', 3, rd, 0, [192, 0, 2, 1]]]], 'evpn_rd_types')
+    for plen4, plen6 in ((0, 0), (1, 1), (31, 127), (32, 128)):
+        both(W.EVPN, [[0, ['evpn', 5, RDS[0], [0] * 10, 0, plen4, [10, 0, 0, 0], [0, 0, 0, 0], 0]],
+                      [0, ['evpn', 5, RDS[0], [255] * 10, 4294967295, plen6, V6A, V6A, 16777215]]], 'evpn_type5_prefix_len')
+    # SR Policy
+    for d, c in ((0, 0), (4294967295, 4294967295), (1, 100)):
+        both(W.IPV4_SRP, [[0, ['srp', d, c, [192, 0, 2, 1]]]], 'srp_forms')
+        both(W.IPV6_SRP, [[0, ['srp', d, c, V6A]]], 'srp_forms')
+    # splitting: several frames of structured entries at 4096
+    for f, kind in ((W.EVPN, 9), (W.EVPN, 13), (W.IPV4_FS, 10), (W.IPV6_FSVPN, 14), (W.RTC, 11), (W.IPV4_SRP, 12)):
+        for ap in (0, 3):
+            l, r = caps_pair([f, W.IPV4], lmode=ap, rmode=ap, ext=(False, False))
+            nh = None if f in FS else NH4
+            for n in (400, 401):
+                add(l, r, ['reach', f, nh, A0 + [_opaque(ap + n % 2)], [['bulk', kind, n, 7]]], 'struct_split')
+                add(l, r, ['unreach', f, [['bulk', kind, n, 7]]], 'struct_split')
+    return cs
